@@ -83,7 +83,7 @@ def run(prop, tier, replay=None):
         per = 120 if tier == "quick" else 2500
         for k, name in enumerate(CONFIGS):
             c = getattr(gateway, name)
-            res, scheds = gateway.run_mc(c, "quick")
+            res, scheds = gateway.run_mc(dict(c, pairs=False), "quick")
             states += res["distinct"]
             transitions += res["generated"]
             if len(scheds) > per:
